@@ -147,8 +147,10 @@ def run_queue(ctx, replay, pid, mine, dims, opts):
             raise vlib.Infra("behaviour generation failed: %s %s" % (g["invariant"], g["error"]))
         allb = behaviours_from(g, 1)
         ctx.cov["exhaustive_plans"] = len(allb)
-        if thorough:
+        cap = opts.get("thorough_cap", 60000)
+        if thorough and len(allb) <= cap:
             behs += allb
+            ctx.cov["exhaustive_plans_replayed"] = True
             n_sim = 6000
         else:
             # stratified sample: one plan per shape (sequence of call results, recipient names dropped)
@@ -160,9 +162,15 @@ def run_queue(ctx, replay, pid, mine, dims, opts):
                 groups.setdefault(sig, []).append(b)
             sigs = sorted(groups, key=repr)
             ctx.rng.shuffle(sigs)
-            behs += [ctx.rng.choice(groups[sg]) for sg in sigs[:opts.get("quick_plans", 450)]]
+            take = cap if thorough else opts.get("quick_plans", 450)
+            for sg in sigs[:take]:
+                behs.append(ctx.rng.choice(groups[sg]))
+            if thorough:   # fill up to the cap with further members of the shapes
+                rest = [b for sg in sigs for b in groups[sg]]
+                ctx.rng.shuffle(rest)
+                behs += rest[:max(0, cap - len(behs))]
             ctx.cov["plan_shapes_total"] = len(sigs)
-            n_sim = 150
+            n_sim = 6000 if thorough else 150
         g2 = ctx.tlc("Queue", None, name="sim", workers=1, timeout=900, simulate=n_sim, depth=80,
                      cfg_text=cfg(["r1", "r2", "r3"], [1, 2, 3], 3, gen=True, tail=GEN_TAIL, dims=dims))
         if not g2["ok"]:
